@@ -1006,4 +1006,111 @@ theorem equality_memcmp_witness :
     vecEqBy ne (vecOf 1 [2]) (vecOf 1 [2]) = some false ∧ vecEqBytes Int.toNat (vecOf 1 [2]) (vecOf 1 [2]) = some true := by
   decide
 
+/-- ROUND 3b. `operator<` UNDER THE ELEMENT TYPE'S OWN `<`.  The `std::lexicographical_compare` loop of the code over
+    two represented vectors runs without a fault and answers, for ANY relation `lt` (in particular every strict weak
+    order; a double's `<`, which is false whenever a NaN is involved, too): there is a position `k` inside `ys` and not
+    behind the end of `xs` in front of which the elements are pairwise equivalent (neither less than the other) and
+    at which `xs` ends or holds the smaller element.  The right-hand side is stated on the two lists alone. -/
+theorem vec_lt_is_lexicographic (lt : Val → Val → Bool) {a b : Vec} {xs ys : List Val} (ha : Rep a xs) (hb : Rep b ys) :
+    ∃ r, vecLtBy lt a b = some r ∧
+      (r = true ↔ ∃ k, k ≤ xs.length ∧ k < ys.length ∧
+        (∀ i, i < k → lt (xs.getD i 0) (ys.getD i 0) = false ∧ lt (ys.getD i 0) (xs.getD i 0) = false) ∧
+        (k = xs.length ∨ lt (xs.getD k 0) (ys.getD k 0) = true)) :=
+  ⟨listLtBy lt xs ys, vecLtBy_ok lt ha hb, listLtBy_iff lt xs ys⟩
+
+example : vecLtBy ltInt (vecOf 2 [1, 2]) (vecOf 3 [1, 2, 0]) = some true ∧ vecLtBy ltInt (vecOf 2 [1, 3]) (vecOf 3 [1, 2, 0]) = some false := by
+  decide
+
+/-- with the value order of the model's element type this is the `<` of `step_refines` (`List`'s lexicographic order) -/
+theorem vec_lt_by_value_is_list_lt {a b : Vec} {xs ys : List Val} (ha : Rep a xs) (hb : Rep b ys) :
+    vecLtBy (fun p q => decide (p < q)) a b = some (decide (xs < ys)) := by
+  rw [vecLtBy_ok _ ha hb]
+  congr 1
+  clear ha hb
+  induction xs generalizing ys with
+  | nil => cases ys <;> simp [listLtBy]
+  | cons x xs ih =>
+    cases ys with
+    | nil => simp [listLtBy]
+    | cons y ys =>
+      simp only [listLtBy, ih, List.cons_lt_cons_iff]
+      by_cases h1 : x < y
+      · simp [h1]
+      · by_cases h2 : y < x
+        · have : x ≠ y := (Int.ne_of_lt h2).symm
+          simp [h1, h2, this]
+        · have : x = y := Int.le_antisymm (Int.not_lt.mp h2) (Int.not_lt.mp h1)
+          subst this
+          simp
+
+/-- ROUND 3b. A FAILED COPY ASSIGNMENT / CONSTRUCTOR.  The operations that rebuild a vector with one allocation — copy
+    assignment from another vector, copy construction, `vector(n)`, the initializer-list / template-range constructor
+    (the object in register `d` is destroyed and built anew) — with ANY allocation failure armed, in a state of the
+    invariant, for an operation std::vector accepts: the call either completes exactly like the unarmed one (std's
+    return value, std's contents), or is left by std::bad_alloc WITHOUT A FAULT in a state that satisfies the full
+    invariant again in which register `d` is the EMPTY vector and every other register is the very record it was
+    (basic guarantee for copy assignment — `invalidate()` has run, `m_data` / `m_size` / `m_capacity` were not yet
+    written —; no object and no leak for a constructor: the delegated-to empty object is destroyed). -/
+theorem alloc_failure_rebuild_safe (portable : Bool) {R : Nat} {s : St} {f : Nat → List Val} (hI : SInv R s f) (af : AF)
+    (op : Op) {d : Nat} (hop : op.rebuilds = some d) (hR : ∀ r ∈ op.regs, r < R)
+    {f' : Nat → List Val} {ret : Ret} (hs : specStep f op = some (f', ret)) :
+    (∃ s', stepA false portable s af op = .ok (s', ret) ∧ SInv R s' f') ∨
+    (∃ s', stepA false portable s af op = .threw (s', .throw) ∧ SInv R s' (fun j => if j = d then [] else f j) ∧
+      s'.regs d = Vec.empty ∧ ∀ j, j ≠ d → s'.regs j = s.regs j) := by
+  have hd : d < R := by
+    apply hR
+    cases op <;> simp [Op.rebuilds] at hop <;> simp [Op.regs] <;> try (split at hop <;> simp_all)
+    all_goals simp_all
+  obtain ⟨l0, hinv, _⟩ := invalidate_good (hI.rep d) s.led
+  rcases stepA_rebuild portable s af op hop hinv with h | ⟨h1, h2⟩
+  · obtain ⟨s1, h3, hI1⟩ := step_refines portable hI op hR hs
+    exact Or.inl ⟨s1, by rw [h, h3]; rfl, hI1⟩
+  · have hs2 : specStep f (.invalidate d) = some (setL f d [], .unit) := rfl
+    obtain ⟨s1, h3, hI1⟩ := step_refines portable hI (.invalidate d) (by intro r hr; simp [Op.regs] at hr; omega) hs2
+    rw [h2] at h3; cases h3
+    refine Or.inr ⟨_, h1, hI1, by simp [St.set], fun j hj => by simp [St.set, hj]⟩
+
+/-- both outcomes of `alloc_failure_rebuild_safe` occur: `b = a` with the allocation refused leaves `b` empty and `a`
+    untouched; with the allocation granted it is the copy -/
+example :
+    (match stepA false false ⟨fun j => if j = 0 then vecOf 2 [1, 2] else vecOf 1 [7], {}⟩ (.kth 0) (.copyAssign 1 0) with
+      | .threw (s', _) => (s'.regs 1).size == 0 && (s'.regs 1).cap == 0 && (s'.regs 1).data.isNone && (s'.regs 0).size == 2
+      | _ => false) = true ∧
+    (match stepA false false ⟨fun j => if j = 0 then vecOf 2 [1, 2] else vecOf 1 [7], {}⟩ (.kth 1) (.copyAssign 1 0) with
+      | .ok (s', _) => (s'.regs 1).size == 2
+      | _ => false) = true := by
+  decide
+
+/-- ROUND 3b. `vector(iterator first, const iterator last)` allocates once per push_back that finds the block full: with
+    ANY of these allocations failing (the k-th of the call, or a bounded allocator) the constructor either completes
+    like the unarmed one or is left by std::bad_alloc without a fault, the partially built vector destroyed and its
+    block given back: the state is in the invariant with register `d` empty and every other register untouched. -/
+theorem alloc_failure_range_ctor_safe (portable : Bool) {R : Nat} {s : St} {f : Nat → List Val} (hI : SInv R s f) (af : AF)
+    (d src a b : Nat) (hd : d < R) (hsrc : src < R)
+    {f' : Nat → List Val} {ret : Ret} (hs : specStep f (.rangeCtor d src a b) = some (f', ret)) :
+    (∃ s', stepA false portable s af (.rangeCtor d src a b) = .ok (s', ret) ∧ SInv R s' f') ∨
+    (∃ s', stepA false portable s af (.rangeCtor d src a b) = .threw (s', .throw) ∧
+      SInv R s' (fun j => if j = d then [] else f j) ∧ s'.regs d = Vec.empty ∧ ∀ j, j ≠ d → s'.regs j = s.regs j) := by
+  have hs0 := hs
+  simp only [specStep] at hs
+  split at hs
+  · rename_i hc
+    obtain ⟨hne, hab, hb⟩ := hc
+    obtain ⟨l0, hinv, g0⟩ := invalidate_good (hI.rep d) s.led
+    have hread := readRange_ok (hI.rep src) a (b - a) (by omega)
+    rcases pushAllA_good af Rep.nil (((f src).drop a).take (b - a)) 0 l0 with ⟨v', l', h2, h3⟩ | ⟨v', zs, l', h2, g2⟩
+    · left
+      have hstep : step portable s (.rangeCtor d src a b) = some (s.set d v' l', .unit) := by
+        simp [step, hne, hinv, rangeCtor, hread, h3]
+      obtain ⟨s1, h4, hI1⟩ := step_refines portable hI (.rangeCtor d src a b) (by intro r hr; simp [Op.regs] at hr; omega) hs0
+      rw [hstep] at h4
+      simp only [Option.some.injEq, Prod.mk.injEq] at h4
+      obtain ⟨rfl, rfl⟩ := h4
+      exact ⟨_, by simp [stepA, hne, hinv, rangeCtorA, hread, h2], hI1⟩
+    · right
+      obtain ⟨l2, hinv2, g3⟩ := invalidate_good g2.rep l'
+      refine ⟨s.set d Vec.empty l2, by simp [stepA, hne, hinv, rangeCtorA, hread, h2, unwindCtor, hinv2], ?_, by simp [St.set], fun j hj => by simp [St.set, hj]⟩
+      exact hI.set hd (g0.trans (g2.trans g3))
+  · simp at hs
+
 end Igris.C02
